@@ -83,7 +83,7 @@ def expand(block, tier):
         qs = [x["i"] for x in nodes if x["kind"] == "q"]
         for r in (1, 2):
             for sub in itertools.combinations(qs, r):
-                for sec in (0, 1):
+                for sec in (0, 1, 2):
                     yield {"f": fj, "include": list(sub), "sec": sec}
         return
     if block[0] == "api":
@@ -322,6 +322,8 @@ SECTIONS = [
     [{"type": "text", "name": "street", "label": "Street"}, {"type": "integer", "name": "no", "label": "No", "bind": {"relevant": "${street} != ''"}}],
     [{"type": "group", "name": "addr", "label": "Addr", "children": [{"type": "text", "name": "street", "label": "Street"}]},
      {"type": "text", "name": "city", "label": "City", "default": "now()"}],
+    [{"type": "text", "name": "street", "label": "Street"}, {"type": "text", "name": "city", "label": "City", "default": "now()"},
+     {"type": "select one", "name": "kind", "label": "Kind", "itemset": "c", "list_name": "c", "choices": [{"name": "x", "label": "X"}, {"name": "y", "label": "Y"}]}],
 ]
 
 
@@ -351,7 +353,8 @@ def check_include(case):
     sections = {"data": main, "sec": {"type": "survey", "name": "sec", "children": copy.deepcopy(SECTIONS[case["sec"]])}}
     parents = [nodes[i]["parent"] for i in case["include"]]
     # refused when two copies become siblings, or when the section's own ${street} reference becomes ambiguous
-    same_parent = len(parents) != len(set(parents)) or (len(parents) > 1 and case["sec"] == 0)
+    # (a section holding a group cannot be included twice either: section names are unique form-wide)
+    same_parent = len(parents) != len(set(parents)) or (len(parents) > 1 and case["sec"] in (0, 1))
     ntr = len(nodes) + 2
     try:
         sv = create_survey(name_of_main_section="data", sections=copy.deepcopy(sections))
@@ -374,7 +377,7 @@ def check_include(case):
         for i in case["include"]:
             base = "/data/" + "/".join(nodes[i]["path"][1:-1])
             base = base.rstrip("/")
-            for leaf in (["street", "no"] if case["sec"] == 0 else ["addr/street", "city"]):
+            for leaf in (["street", "no"], ["addr/street", "city"], ["street", "city", "kind"])[case["sec"]]:
                 px = f"{base}/{leaf}"
                 if px not in obs.paths or sum(1 for b in obs.model.findall(O.X + "bind") if b.get("nodeset") == px) != 1:
                     viol.append(("include:included-node-not-bound-once", px))
